@@ -1,7 +1,7 @@
 package main
 
 // C17 — work stays polynomial on unambiguous grammars.
-// The six named families at doubling lengths: the call count of the real library must equal the Lean
+// The six named families (plus two with several left-recursive alternatives per rule) at doubling lengths: the call count of the real library must equal the Lean
 // model's exactly (same count on every run, and on a re-built grammar), and calls(2n)/calls(n) <= 16.
 
 import (
@@ -56,6 +56,30 @@ func families() []family {
 	// 6. separated list: L -> a (, a)*
 	fs = append(fs, family{"seplist", []*Sexp{LA("sepby", N(0), noOpts, runeT('a'), runeT(','))}, LA("sentence", refN(0)),
 		func(n int) string { return "a" + strings.Repeat(",a", (n-1)/2) }})
+	// 7. two left-recursive alternatives in one rule: P -> P b | P c | a   (still unambiguous)
+	fs = append(fs, family{"PbPcA", []*Sexp{LA("memo", N(0), LA("any", seqOf(refN(0), runeT('b')), seqOf(refN(0), runeT('c')), runeT('a')))}, LA("sentence", refN(0)),
+		func(n int) string {
+			var sb strings.Builder
+			sb.WriteByte('a')
+			for i := 1; i < n; i++ {
+				sb.WriteByte("bc"[i%2])
+			}
+			return sb.String()
+		}})
+	// 8. arithmetic with two operators per level: E -> E + T | E - T | T ; T -> T * F | T / F | F ; F -> 1 | ( E )
+	fs = append(fs, family{"arith2", []*Sexp{
+		LA("memo", N(0), LA("any", seqOf(refN(0), runeT('+'), refN(1)), seqOf(refN(0), runeT('-'), refN(1)), refN(1))),
+		LA("memo", N(1), LA("any", seqOf(refN(1), runeT('*'), refN(2)), seqOf(refN(1), runeT('/'), refN(2)), refN(2))),
+		LA("any", runeT('1'), seqOf(runeT('('), refN(0), runeT(')')))}, LA("sentence", refN(0)),
+		func(n int) string {
+			var sb strings.Builder
+			ops := "+-*/"
+			for sb.Len() < n-1 {
+				sb.WriteByte('1')
+				sb.WriteByte(ops[(sb.Len()/2)%4])
+			}
+			return sb.String() + "1"
+		}})
 	return fs
 }
 
@@ -104,17 +128,17 @@ func c17Exec(c *Sexp) Outcome {
 func init() {
 	register(&Prop{
 		ID: "C17", Cmd: "parse",
-		Rule: "the six named families (P -> P b | a; expr/term/factor arithmetic; mutually left-recursive pair; hidden left recursion P -> x? P b | a; nested brackets; separated list) at lengths 5..128 (thorough: ..384): exact call counts of the implementation vs the Lean model, equal on a second run with a re-built grammar, and calls(2n)/calls(n) <= 16 for n >= 8 (each case also runs length 2n on the implementation). Non-trivial = n >= 16; distinct = (family, n).",
+		Rule: "the six named families (P -> P b | a; expr/term/factor arithmetic; mutually left-recursive pair; hidden left recursion P -> x? P b | a; nested brackets; separated list) and two more with several left-recursive alternatives per rule (P -> P b | P c | a; arithmetic with + - * /) at lengths 5..128 (thorough: ..384): exact call counts of the implementation vs the Lean model, equal on a second run with a re-built grammar, and calls(2n)/calls(n) <= 16 for n >= 8 (each case also runs length 2n on the implementation). Non-trivial = n >= 16; distinct = (family, n).",
 		Count: func(tier string) int {
 			if tier == "thorough" {
-				return 6 * (len(c17Lengths) + 3)
+				return len(families()) * (len(c17Lengths) + 3)
 			}
-			return 6 * len(c17Lengths)
+			return len(families()) * len(c17Lengths)
 		},
 		Gen: func(rng *rand.Rand, tier string, i int) *Sexp {
 			fs := families()
 			lens := append(append([]int{}, c17Lengths...), 192, 256, 384)
-			return c17Case(fs[i%6], lens[i/6])
+			return c17Case(fs[i%len(fs)], lens[i/len(fs)])
 		},
 		Exec: c17Exec,
 	})
